@@ -37,7 +37,8 @@ LEVEL_NOTE = ('Trusted: ASan for out-of-bounds detection (reads inside the same 
               'string are caught by the exact-size buffer of the native target only); the list of allowed '
               'exception types is taken from the property statement. Inputs are bounded to 400 characters so '
               'that interpreter recursion limits / memory exhaustion are not what is being reported.')
-ASSUMPTIONS = ['inputs <= 400 characters, parenthesis/bracket nesting depth <= 40 (RecursionError/MemoryError on resource exhaustion are not counted)',
+ASSUMPTIONS = ['near-limit family (compiled typeof only, ~1200 opcodes): RuntimeError "type-building recursion too deep" counts as a resource bound like RecursionError',
+               'inputs <= 400 characters, parenthesis/bracket nesting depth <= 40 (RecursionError/MemoryError on resource exhaustion are not counted)',
                'allowed for cdef()/typeof() in-line: CDefError, FFIError, NotImplementedError, VerificationError, VerificationMissing',
                'allowed for compiled typeof(): ffi.error, TypeError, ValueError']
 BUDGET = {'quick': 4800, 'thorough': 400000}
@@ -45,6 +46,8 @@ TIME = {'quick': 25, 'thorough': 1200}
 MAX_SHARDS = 12
 CRASHY = True
 ASAN_TIERS = ('thorough',)
+# debug hooks of CPython's allocators: a write past a PyMem/PyObject block aborts at free time
+WORKER_ENV = {'PYTHONMALLOC': 'debug'}
 MAXLEN = 400
 
 FRAG_WORDS = ['int', 'char', 'short', 'long', 'unsigned', 'signed', 'float', 'double', 'void', '_Bool',
@@ -122,6 +125,24 @@ def strategy(ctx):
             spec = draw(cdefgen.specs(max_decls=5))
             text = cdefgen.cdef_text(spec)
             return {'entry': 'cdef', 'text': _mutate(draw, text), 'mutated_from_valid': True}
+        if which == 7 and draw(st.booleans()):
+            # compiled parser only: flat type strings whose opcode count ends within a few slots of
+            # the complexity limit of ffi.typeof (1200 opcodes), for every declarator suffix kind
+            base = draw(st.sampled_from(['int', 'char', 'foo_t', 'struct s1', 'void']))
+            filler = draw(st.sampled_from(['*', '*', '[2]', ' *const']))
+            k = draw(st.integers(1170, 1204))
+            suffix = draw(st.sampled_from(['()', '(int)', '(int,int)', '(int, char, long)', '(void)', '(int, ...)',
+                                           '[]', '[3]', '(*)(int)', '(*)()', '(*)[4]', '', '(foo_t, struct s1 *)']))
+            if draw(st.integers(0, 3)) == 0:
+                # flat: a function pointer with ~590 parameters, the last one a function type
+                n = draw(st.integers(575, 602))
+                text = 'void(*)(' + 'int,' * n + draw(st.sampled_from(['int(*)()', 'int(*)(int)', 'int', 'char[]'])) + ')'
+            elif filler == '[2]':
+                text = base + suffix.replace('()', '') + filler * k if suffix in ('[]', '[3]', '') else \
+                    base + '(*' + filler * k + ')' + (suffix if suffix.startswith('(') else '(int)')
+            else:
+                text = base + filler * k + suffix
+            return {'entry': 'typeof-compiled', 'text': text, 'mutated_from_valid': True}
         if which <= 7:
             text = draw(_type_strings())
             return {'entry': 'typeof', 'text': _mutate(draw, text), 'mutated_from_valid': True}
@@ -207,7 +228,7 @@ def compiled_ffi(ctx):
     return st_['cffi'], st_['bare']
 
 
-def run_compiled(text, ctx):
+def run_compiled(text, ctx, deep=False):
     out = []
     for name, f in zip(('ool', 'bare'), compiled_ffi(ctx)):
         try:
@@ -217,6 +238,11 @@ def run_compiled(text, ctx):
         except (RecursionError, MemoryError):
             pass
         except Exception as e:
+            # realize_c_type's own guard against too deep type nesting ("type-building recursion too
+            # deep"): a resource bound like RecursionError, reachable only by the >1000-level
+            # declarators of the near-limit family
+            if deep and isinstance(e, RuntimeError):
+                continue
             out.append(('compiled-%s-%s' % (name, type(e).__name__),
                         '%s: %s' % (type(e).__name__, str(e)[:200])))
     return out
@@ -242,6 +268,13 @@ def prop(case, ctx):
                      bucket=r[0], report=r[1])
         return
     text = case['text']
+    if entry == 'typeof-compiled':
+        # near-limit family: the in-line parser would only hit Python's recursion limit on these
+        ctx.note(('compiled', text), True, ['compiled-typeof-near-limit'])
+        for bucket, msg in run_compiled(text, ctx, deep=True):
+            if not ctx.skip_known(known_bucket_tag(bucket)):
+                ctx.fail('%s escapes from compiled typeof(%r...)' % (msg, text[:60]), bucket=bucket)
+        return
     if too_deep(text):
         ctx.event('skipped-too-deep-or-long')
         return
